@@ -333,6 +333,91 @@ func TestC17(t *testing.T) {
 			}
 			out.emit(tag, "c17", []string{ty.Sexp(), v.Sexp()}, obs)
 		}
+		// several read-only bit iterators alive at once over different bitfields (more than one
+		// chunk each), advanced in a random interleaving, opened while earlier ones are still
+		// being polled past their end: each yields what it yields alone
+		{
+			gm := &gen{r: newRng(1717), maxElem: 700}
+			rounds := 12
+			if thorough() {
+				rounds = 300
+			}
+			for round := 0; round < rounds; round++ {
+				k := 2 + gm.r.Intn(3)
+				type live struct {
+					ty    *Ty
+					v     *Val
+					it    bitIter
+					parts []string
+					want  int
+					open  bool
+				}
+				ls := make([]*live, k)
+				for i := range ls {
+					nb := uint64(257 + gm.r.Intn(500))
+					ty := &Ty{Kind: "bitlist", N: nb + uint64(gm.r.Intn(3))*300}
+					if gm.r.Intn(3) == 0 {
+						ty = &Ty{Kind: "bitvec", N: nb}
+					}
+					v := &Val{Kind: "bits", Bits: make([]bool, nb)}
+					for j := range v.Bits {
+						v.Bits[j] = gm.r.Intn(2) == 1
+					}
+					ls[i] = &live{ty: ty, v: v}
+				}
+				res := guard(func() string {
+					for {
+						var pending []*live
+						for _, l := range ls {
+							if !l.open || l.want > 0 {
+								pending = append(pending, l)
+							}
+						}
+						if len(pending) == 0 {
+							return ""
+						}
+						l := pending[gm.r.Intn(len(pending))]
+						if !l.open {
+							vw, err := buildView(l.ty, l.v)
+							if err != nil {
+								l.open, l.want = true, 0
+								l.parts = []string{"ERR"}
+								continue
+							}
+							switch x := vw.(type) {
+							case *view.BitListView:
+								l.it = x.ReadonlyIter()
+							case *view.BitVectorView:
+								l.it = x.ReadonlyIter()
+							}
+							l.open, l.want = true, len(l.v.Bits)+3
+							continue
+						}
+						// a burst of calls on this one
+						for c := 1 + gm.r.Intn(200); c > 0 && l.want > 0; c-- {
+							b, ok, err := l.it.Next()
+							switch {
+							case err != nil:
+								l.parts = append(l.parts, "ERR")
+								l.want = 1
+							case !ok:
+								l.parts = append(l.parts, "END")
+							default:
+								l.parts = append(l.parts, b01(b))
+							}
+							l.want--
+						}
+					}
+				})
+				for _, l := range ls {
+					obs := "ro=" + strings.Join(l.parts, ",")
+					if res == "PANIC" {
+						obs = "ro=PANIC"
+					}
+					out.emit("mix", "c17", []string{l.ty.Sexp(), l.v.Sexp()}, obs)
+				}
+			}
+		}
 		// lengths that end inside / at / just after a chunk; depth larger than the length needs
 		gb := &gen{r: newRng(17), maxElem: 700}
 		for _, k := range []uint64{1, 2, 31, 32, 33, 63, 64, 65, 255, 256, 257, 511, 512, 513} {
